@@ -48,11 +48,14 @@ class NfdRegister(PrefixRegisterer):
                     break
                 await aio.sleep(0.001)
             try:
-                _, reply, _ = await self.app.express(
+                result = self.app.express(
                     name=nfd_mgmt.make_command_v2('rib', 'register', self.app.face, name=name),
                     app_param=b'', signer=sec.DigestSha256Signer(for_interest=True),
                     validator=pass_all,
                     lifetime=1000)
+                # The signer read the clock again after the check above: remember the latest reading
+                self._last_command_timestamp = max(self._last_command_timestamp, utils.timestamp())
+                _, reply, _ = await result
                 ret = nfd_mgmt.parse_response(reply)
                 if ret['status_code'] != 200:
                     logging.getLogger(__name__).error('Registration for %s failed: %s %s',
@@ -80,10 +83,13 @@ class NfdRegister(PrefixRegisterer):
                     break
                 await aio.sleep(0.001)
             try:
-                _, reply, _ = await self.app.express(
+                result = self.app.express(
                     nfd_mgmt.make_command_v2('rib', 'unregister', self.app.face, name=name),
                     app_param=b'', signer=sec.DigestSha256Signer(for_interest=True),
                     validator=pass_all, lifetime=1000)
+                # The signer read the clock again after the check above: remember the latest reading
+                self._last_command_timestamp = max(self._last_command_timestamp, utils.timestamp())
+                _, reply, _ = await result
                 return nfd_mgmt.parse_response(reply)['status_code'] == 200
             except (types.InterestNack, types.InterestTimeout, types.InterestCanceled, types.ValidationFailure):
                 return False
